@@ -31,6 +31,8 @@ def serialize_json(
         registry: t.Optional[_JWSRegistry] = None) -> FlattenedJSONSerialization:
 
     _member = HeaderMember(**member)
+    if _member.protected:
+        _check_unprotected_header(_member.header)
     headers = _member.headers()
     if "b64" not in headers:
         return _serialize_json(member, payload, private_key, algorithms, registry)
@@ -106,6 +108,8 @@ def _extract_json(value: FlattenedJSONSerialization) -> t.Optional[FlattenedJSON
         protected = None
 
     header = value.get("header")
+    if "protected" in value:
+        _check_unprotected_header(header)
     member = HeaderMember(protected, header)
     headers = member.headers()
     if "b64" not in headers:
@@ -121,3 +125,11 @@ def _extract_json(value: FlattenedJSONSerialization) -> t.Optional[FlattenedJSON
     obj.signature = _sig
     obj.segments = {"payload": payload}
     return obj
+
+
+def _check_unprotected_header(header: t.Any) -> None:
+    # https://datatracker.ietf.org/doc/html/rfc7797#section-3
+    # "b64" MUST be integrity protected: next to a JWS Protected Header
+    # it MUST NOT occur in the JWS Unprotected Header
+    if header and "b64" in header:
+        raise ValueError('The "b64" Header Parameter MUST occur only within the JWS Protected Header')
